@@ -584,3 +584,61 @@ Proof.
   unfold addr_eqb in Heq. apply andb_prop in Heq as [H1 H2]. apply Z.eqb_eq in H1, H2.
   destruct a, x; cbn in *; subst. exact Hin.
 Qed.
+
+Lemma load_my_addr E addrs d c :
+  load E addrs d = Ok c ->
+  Forall (fun kv => In (i_my_addr (snd kv)) addrs /\ fst kv = (i_my_addr (snd kv), i_peer_addr (snd kv))) c.
+Proof.
+  intros H. apply load_listened in H. unfold listened in H. rewrite Forall_forall in *.
+  intros kv Hin. destruct (H kv Hin) as [H1 H2]. split; [apply addr_mem_In; exact H1|exact H2].
+Qed.
+
+(** * Non-vacuity: an environment satisfying [env_ok], a dictionary that loads, one that is rejected *)
+Definition example_env : env :=
+  {| o_getaddrinfo := fun v => match v with PStr s => Ok s | PNone => Raise GaiError | _ => Raise TypeError end;
+     o_ip_address := fun v => match v with
+                              | PStr s => if String.eqb s "10.0.0.1" then Ok (4, 167772161)
+                                          else if String.eqb s "10.0.0.2" then Ok (4, 167772162)
+                                          else Raise ValueError
+                              | _ => Raise ValueError
+                              end;
+     o_ip_network := fun _ => Raise ValueError;
+     o_pubkey := fun _ => Raise ValueError;
+     o_privkey := fun _ => Raise TypeError;
+     o_int_nonascii := fun _ => None;
+     o_randint := fun _ => 77 |}.
+
+Example example_env_ok : env_ok example_env.
+Proof.
+  constructor; cbn.
+  - intros v e H. destruct v; inversion H; auto.
+  - intros v e H. destruct v; try (inversion H; reflexivity).
+    destruct (String.eqb s "10.0.0.1"); [discriminate|]. destruct (String.eqb s "10.0.0.2"); [discriminate|].
+    inversion H; reflexivity.
+  - intros v e H; inversion H; reflexivity.
+  - intros v e H; inversion H; reflexivity.
+  - intros v e H; inversion H; reflexivity.
+Qed.
+
+Definition example_conn (extra : list (pv * pv)) : pv :=
+  PDict [(PStr "c", PDict ([(PStr "my_addr", PStr "10.0.0.1"); (PStr "peer_addr", PStr "10.0.0.2");
+                            (PStr "my_auth", PDict [(PStr "psk", PStr "a"); (PStr "id", PStr "alice@example.org")]);
+                            (PStr "peer_auth", PDict [(PStr "psk", PStr "b")]);
+                            (PStr "protect", PList [PDict [(PStr "ipsec_proto", PStr "ah"); (PStr "my_port", PStr " 2_3 ")]])]
+                           ++ extra))].
+
+Example example_loads :
+  exists ic, load example_env [(4, 167772161)] (example_conn []) = Ok [(((4, 167772161), (4, 167772162)), ic)]
+             /\ p_transforms (i_proposal ic) = [T 1 12 (Some 256); T 3 12 None; T 2 5 None; T 4 14 None]
+             /\ map (fun c => (p_transforms (c_proposal c), ts_end_port (c_my_ts c), c_index c)) (i_protect ic)
+                = [([T 3 12 None; NO_ESN], 23, 77)]
+             /\ id_type (a_id (i_my_auth ic)) = 3.
+Proof. eexists. vm_compute. repeat split. Qed.
+
+Example example_rejected :
+  load example_env [(4, 167772162)] (example_conn []) = Raise ConfigurationError           (* not listening *)
+  /\ load example_env [(4, 167772161)] (example_conn [(PStr "lifetime", PStr "abc")]) = Raise ConfigurationError
+  /\ load example_env [(4, 167772161)]
+       (example_conn [(PStr "encr", PList []); (PStr "integ", PList []); (PStr "prf", PList []); (PStr "dh", PList [])])
+     = Raise ConfigurationError.                                                          (* F14 *)
+Proof. vm_compute. repeat split. Qed.
